@@ -106,6 +106,8 @@ def gen_spec(rng, idx, route=None):
             spec['drop'] = sorted(map(list, drop))
     if route != 'numpy':
         spec['detection'] = rng.choice(DETECTIONS)
+    if route != 'segy_irreg' and rng.random() < 0.08:
+        spec['dead'] = rng.choice(['tail', 'tail', 'head'])      # dead traces: blocks that compress to all-zero bytes
     if route in ('segy', 'segy_iops') and spec['shape'][0] >= 3 and spec['shape'][1] >= 3 and rng.random() < 0.25:
         # conversion of an inline / crossline window of the source (ordinals; the constructor takes a window
         # only when all four bounds are non-zero)
@@ -131,12 +133,13 @@ def materialise(spec, scratch):
         return spec['src']
     path = os.path.join(scratch, f"in_{spec['id']}.sgy")
     if route == 'segy_2d':
-        segygen.make_segy_2d(path, spec['shape'][0], spec['shape'][1], spec['data_seed'], fmt=spec['fmt'])
+        segygen.make_segy_2d(path, spec['shape'][0], spec['shape'][1], spec['data_seed'], fmt=spec['fmt'],
+                             dead=spec.get('dead'))
     else:
         drop = set(map(tuple, spec['drop'])) if route == 'segy_irreg' else None
         segygen.make_segy_3d(path, tuple(spec['shape']), spec['data_seed'], fmt=spec['fmt'],
                              il0=spec['il0'], xl0=spec['xl0'], il_step=spec['il_step'], xl_step=spec['xl_step'],
-                             drop=drop)
+                             drop=drop, dead=spec.get('dead'))
     spec['src'] = path
     return path
 
@@ -157,6 +160,27 @@ def mem_for_cap(spec, cap):
     return 2 * inline_set_bytes(spec) * cap + 1
 
 
+class FailingArray(np.ndarray):
+    """A source array whose backing store fails from inline `fail_from` on (a memory-mapped volume on a share that went
+    away): slicing whole inlines at or beyond it raises OSError."""
+    _fail_from = None
+
+    @classmethod
+    def wrap(cls, data, fail_from):
+        a = data.view(cls)
+        a._fail_from = fail_from
+        return a
+
+    def __array_finalize__(self, obj):
+        self._fail_from = getattr(obj, '_fail_from', None)
+
+    def __getitem__(self, key):
+        if self._fail_from is not None and isinstance(key, tuple) and len(key) == 3 and isinstance(key[0], slice) \
+                and key[0].start is not None and key[0].start >= self._fail_from:
+            raise OSError(5, 'Input/output error reading the source volume (injected)')
+        return np.ndarray.__getitem__(self, key).view(np.ndarray)
+
+
 def converter_fn(spec, out_path):
     """Closure running the real converter for spec, writing to out_path (a SimFS or real path)."""
     from seismic_zfp.conversion import NumpyConverter, SegyConverter
@@ -164,7 +188,9 @@ def converter_fn(spec, out_path):
     bits = spec['bits']
     bs = tuple(spec['blockshape'])
     if route == 'numpy':
-        data = segygen.cube_data(tuple(spec['shape']), spec['data_seed'])
+        data = segygen.cube_data(tuple(spec['shape']), spec['data_seed'], spec.get('dead'))
+        if spec.get('fail_from') is not None:
+            data = FailingArray.wrap(data, spec['fail_from'])
         if spec.get('nonfinite'):
             rs = np.random.RandomState(spec['data_seed'] % (2 ** 31))
             flat = data.reshape(-1)
